@@ -63,6 +63,10 @@ pub fn scripts() -> Vec<(Vec<u8>, Value)> {
             json!([head("", "unknown", 0, false, false, true), bytes(2)]),
         ),
         (
+            b"GET / HTTP/1.1\r\ntransfer-encoding: gzip\r\ncontent-length: 3\r\n\r\nabc".to_vec(),
+            json!([head("", "known", 3, false, false, true), bytes(3)]),
+        ),
+        (
             b"GET /a HTTP/1.1\r\n\r\nGET /b HTTP/1.1\r\n\r\n".to_vec(),
             json!([head("", "none", 0, false, false, false), head("", "none", 0, false, false, false)]),
         ),
